@@ -248,7 +248,9 @@ def exotic_form(sr, rng, sym, kw, fermionic):
     - numpy integers as charge labels (the library's own utils.rand_index produces them),
     - block memory that is not C-contiguous (transposed / strided views),
     - explicitly stored trivial (+1) entries in the pending-sign table."""
-    kinds = ["npint-labels", "strided-blocks"] + (["explicit-plus-one-signs"] * 2 if fermionic else [])
+    kinds = ["npint-labels", "strided-blocks", "stored-zero-block", "stored-zero-block"] + (["explicit-plus-one-signs"] * 2 if fermionic else [])
+    if any(np.asarray(b).dtype.kind == "c" for b in kw["blocks"].values()):
+        kinds.append("complex-with-zero-imaginary-part")
     kind = rng.choice(kinds)
     EXOTIC_SEEN[kind] = EXOTIC_SEEN.get(kind, 0) + 1
     kw = dict(kw)
@@ -271,6 +273,16 @@ def exotic_form(sr, rng, sym, kw, fermionic):
             else:
                 nb[s_] = b
         kw["blocks"] = nb
+    elif kind == "stored-zero-block":
+        # a stored block that is identically zero (as left by fill_missing_blocks, x - x, ...)
+        secs = list(kw["blocks"])
+        if len(secs) >= 2:
+            nb = dict(kw["blocks"])
+            for s_ in rng.sample(secs, rng.randint(1, max(1, len(secs) // 3))):
+                nb[s_] = np.zeros_like(np.asarray(nb[s_]))
+            kw["blocks"] = nb
+    elif kind == "complex-with-zero-imaginary-part":
+        kw["blocks"] = {s_: (np.asarray(b).real.astype(np.asarray(b).dtype) if np.asarray(b).dtype.kind == "c" else b) for s_, b in kw["blocks"].items()}
     else:
         secs = list(kw["blocks"])
         if secs:
